@@ -26,7 +26,7 @@ CONSTANTS MaxSid,            \* sessions are numbered 1..MaxSid
           Props              \* set of property ids whose conjuncts are enforced
 
 SessOps == INSTANCE Session WITH Ver <- "v2c", HasAuth <- FALSE, HasPriv <- FALSE, MaxReq <- 0, MaxInbox <- 0,
-              MaxInject <- 0, DEV_NoIncomingMacCheck <- FALSE,
+              MaxInject <- 0, DEV_NoIncomingMacCheck <- FALSE, WithSecMutants <- FALSE,
               sess <- 0, pending <- FALSE, inbox <- <<>>, result <- 0, nsent <- 0, ninj <- 0, hist <- <<>>
 
 Rec == ndJsonDeserialize(IOEnv.TRACE)
@@ -236,15 +236,20 @@ AbsOf(s, item) ==
 
 AbsSess(s) == [reqId |-> 1, msgId |-> 1, engineKnown |-> s.engine # <<>>, boots |-> 0]
 
-(* the receive loop as the composition of Session!RecvOne steps over the queued datagrams *)
+(* The receive loop as the composition of Session!RecvOne steps over the queued datagrams.  The result is a
+   SET of acceptable outcomes: a singleton except where the properties leave a choice (a Report PDU carrying
+   the current request-id inside a community-based message: C04 allows delivering it - as an error - and
+   allows skipping it; Report PDUs belong to SNMPv3). *)
 RECURSIVE Scan(_, _)
 Scan(s, inbox) ==
-  IF inbox = <<>> THEN [o |-> "wouldblock", rest |-> <<>>]
+  IF inbox = <<>> THEN {[o |-> "wouldblock", rest |-> <<>>]}
   ELSE LET a == AbsOf(s, inbox[1]) IN
-       IF a.kind = "unjudged" THEN [o |-> "unjudged", rest |-> Tail(inbox)]
+       IF a.kind = "unjudged" THEN {[o |-> "unjudged", rest |-> Tail(inbox)]}
        ELSE LET o == SessOps!OutcomeP(FALSE, s.ver, HasAuth(s), HasPriv(s), AbsSess(s), a) IN
             IF o = "skip" THEN Scan(s, Tail(inbox))
-            ELSE [o |-> o, rest |-> Tail(inbox), a |-> a]
+            ELSE IF o = "deliver" /\ s.ver # "v3" /\ a.pdu = "report"
+              THEN {[o |-> o, rest |-> Tail(inbox), a |-> a]} \cup Scan(s, Tail(inbox))
+            ELSE {[o |-> o, rest |-> Tail(inbox), a |-> a]}
 
 (* expected result of delivering pdu for operation op *)
 Expected(s, pdu) ==
@@ -273,25 +278,31 @@ ResultMatches(x, e) ==
             /\ \A i \in 1..Len(ps) : PairMatches(x.yield[i], ps[i], e.interp)
   ELSE FALSE
 
+(* does the recorded call e realise outcome r ? *)
+Realises(s, r, e) ==
+  IF r.o = "wouldblock" THEN e.exc \in {"BlockingIOError", "TimeoutError"}     \* C04 / C18: keeps waiting, then times out
+  ELSE IF r.o = "raise" THEN e.exc = "SnmpDecodeError"                         \* C04: undecodable ends the call
+  ELSE IF r.o = "deliver" THEN ResultMatches(Expected(s, r.a.cpdu), e)          \* C02 / C05 / C06 / C07
+  ELSE FALSE
+
+AfterRecv(s, r) ==
+  IF r.o = "wouldblock" THEN [s EXCEPT !.inbox = <<>>, !.pending = FALSE]
+  ELSE IF r.o = "raise" THEN [s EXCEPT !.inbox = r.rest, !.pending = FALSE]
+  ELSE [s EXCEPT !.inbox = r.rest, !.pending = FALSE,
+                 \* C13: adopt boots/time on every accepted message, engine id once
+                 !.boots = IF s.ver = "v3" THEN r.a.usm.boots ELSE @,
+                 !.time = IF s.ver = "v3" THEN r.a.usm.time ELSE @,
+                 !.engine = IF s.ver = "v3" /\ @ = <<>> THEN r.a.usm.engine ELSE @]
+
 TRecv ==
   /\ IsEvent("Recv")
   /\ LET e == Rec[l]  s == S[e.sid] IN
      IF s.tainted \/ ~s.pending THEN UNCHANGED <<S, fails>>
-     ELSE LET r == Scan(s, s.inbox) IN
-       IF r.o = "unjudged"
+     ELSE LET rs == Scan(s, s.inbox) IN
+       IF \E r \in rs : r.o = "unjudged"
          THEN S' = [S EXCEPT ![e.sid] = [@ EXCEPT !.tainted = TRUE]] /\ UNCHANGED fails
-       ELSE IF r.o = "wouldblock"
-         THEN Judge(e.sid, e.exc \in {"BlockingIOError", "TimeoutError"},       \* C04 / C18: keeps waiting, then times out
-                    [s EXCEPT !.inbox = <<>>, !.pending = FALSE])
-       ELSE IF r.o = "raise"
-         THEN Judge(e.sid, e.exc = "SnmpDecodeError",                           \* C04: undecodable ends the call
-                    [s EXCEPT !.inbox = r.rest, !.pending = FALSE])
-       ELSE Judge(e.sid, ResultMatches(Expected(s, r.a.cpdu), e),                \* C02 / C05 / C06 / C07
-                  [s EXCEPT !.inbox = r.rest, !.pending = FALSE,
-                            \* C13: adopt boots/time on every accepted message, engine id once
-                            !.boots = IF s.ver = "v3" THEN r.a.usm.boots ELSE @,
-                            !.time = IF s.ver = "v3" THEN r.a.usm.time ELSE @,
-                            !.engine = IF s.ver = "v3" /\ @ = <<>> THEN r.a.usm.engine ELSE @])
+       ELSE LET good == {r \in rs : Realises(s, r, e)} IN
+            Judge(e.sid, good # {}, IF good # {} THEN AfterRecv(s, CHOOSE r \in good : TRUE) ELSE s)
 
 TNext == /\ (TOpen \/ TClose \/ TSetKeys \/ TSend \/ TInject \/ TRecv)
          /\ (l' = Len(Rec) + 1) => PrintT(ToJson([fails |-> fails', nfails |-> Len(fails')]))
